@@ -30,6 +30,7 @@ type Audit struct {
 	callees  map[*ssa.Function][]*ssa.Function
 	hostNil  map[string][]int // function name -> parameter indices the host may pass nil
 	usedEx   map[string]bool
+	only     func(*ssa.BasicBlock) bool // when set, only sites in these blocks are audited
 }
 
 // isRecoverBarrier: the function's first instruction that can do anything is a
@@ -634,6 +635,9 @@ func (a *Audit) auditFunc(fn *ssa.Function) {
 	for _, b := range fn.Blocks {
 		// unreachable blocks (e.g. recover block) have no preds and are not entry
 		if b != fn.Blocks[0] && len(b.Preds) == 0 && b != fn.Recover {
+			continue
+		}
+		if a.only != nil && !a.only(b) {
 			continue
 		}
 		for _, in := range b.Instrs {
